@@ -138,6 +138,7 @@ func (fal *FuelAccountLine) Validate() error {
 func (fai *FuelAccountItem) Validate() error {
 	return validation.ValidateStruct(fai,
 		validation.Field(&fai.Type, validation.Required),
+		validation.Field(&fai.Unit),
 		validation.Field(&fai.Name,
 			validation.Required,
 			validation.Length(1, 300),
